@@ -94,7 +94,9 @@ Definition vok (S : schema) : bool :=
   vroot_ok S (Some (s_query S)) && vroot_ok S (s_mutation S) && vroot_ok S (s_subscription S) &&
   forallb (fun d => forallb (fun a => ref_ok S [] (in_type (snd a))) (dd_args (snd d))) (s_directives S) &&
   forallb (fun nf => ref_ok S [] (f_type (snd nf)) &&
-                     forallb (fun a => ref_ok S [] (in_type (snd a))) (f_args (snd nf))) (s_meta S).
+                     forallb (fun a => ref_ok S [] (in_type (snd a))) (f_args (snd nf))) (s_meta S) &&
+  (* the built-in String (the type of __typename), when registered, requires nothing *)
+  match req_of S n_String with Some [] | None => true | _ => false end.
 
 (** ** lists *)
 Lemma subset_spec a b : subset a b = true <-> (forall x, In x a -> In x b).
@@ -177,11 +179,14 @@ Section Erase.
     forallb (fun nf => ref_ok S [] (f_type (snd nf)) &&
                        forallb (fun a => ref_ok S [] (in_type (snd a))) (f_args (snd nf))) (s_meta S) = true.
   Proof.
-    pose proof Hok as H. unfold vok in H.
+    pose proof Hok as H. unfold vok in H. apply andb_true_iff in H as [H _].
     apply andb_true_iff in H as [H H7]. apply andb_true_iff in H as [H H6]. apply andb_true_iff in H as [H H5].
     apply andb_true_iff in H as [H H4]. apply andb_true_iff in H as [H H3].
     apply andb_true_iff in H as [H1 H2]. auto 10.
   Qed.
+
+  Lemma string_rule : match req_of S n_String with Some [] | None => true | _ => false end = true.
+  Proof. pose proof Hok as H. unfold vok in H. apply andb_true_iff in H as [_ H]. exact H. Qed.
 
   Lemma raw_type_erase n :
     raw_type E n = match raw_type S n with
